@@ -10,9 +10,9 @@ correspondence check `harness/props/c23.py`.
 All theorems quantify over every blob, offset, length, read pattern and every way `ch` the service may cut a body into pieces
 (`hch : ∀ b, (ch b).flatten = b`).
 
-Findings on the unchanged tree (both in `AzureReadableStream.read(-1)`; see `azure_open_from_exact_refuted`,
-`azure_read_from_refuted`): the full statement `OpenFromExact` does not hold for Azure; it is proved for the other three
-backends and, for Azure, under the hypothesis that the pattern contains no `read(-1)` (`azure_open_from_exact_partial`).
+Two defects of `AzureReadableStream.read(-1)` found by this check were repaired in the repo (commit 86ee8e0ea); the model follows
+the repaired code and the property is proved at full strength for all four backends.  The behaviour before the repair is kept
+as `AzSt.readOld` / `AzSt.readAllOld` / `azRunOld`, with the two witnesses as `example`s at the end of this file.
 -/
 namespace HailVerif.C23
 open HailVerif.RangeRead
@@ -63,7 +63,7 @@ theorem truncated_reader_within_limit (ch : Blob → List Blob) (hch : ∀ b, (c
   cases hr : run ch ps.flatten (.file { pieces := ps, offset := 0, limit := some lim }) ops [] with
   | mk st rest =>
     obtain ⟨out, s'⟩ := rest
-    obtain ⟨d, r', ho, hr', _⟩ := run_spec false ch hch ps.flatten ops _ _ [] hg (by simp; omega) (by simp [Stream.isAzure]) st out s' hr
+    obtain ⟨d, r', ho, hr', _⟩ := run_spec false ch hch ps.flatten ops _ _ [] hg (by simp; omega) st out s' hr
     exact ⟨r', by rw [ho, hr']; simp⟩
 
 /-- … and a pattern that ends with a drain loop `while b := read(n)` (n ≥ 1) yields exactly the first `lim` bytes. -/
@@ -77,7 +77,7 @@ theorem truncated_reader_drain_exact (ch : Blob → List Blob) (hch : ∀ b, (ch
   cases hr : run ch ps.flatten (.file { pieces := ps, offset := 0, limit := some lim }) pre [] with
   | mk st rest =>
     obtain ⟨out1, s1⟩ := rest
-    obtain ⟨d, r', ho, hr', hres⟩ := run_spec false ch hch ps.flatten pre _ _ [] hg (by simp; omega) (by simp [Stream.isAzure]) st out1 s1 hr
+    obtain ⟨d, r', ho, hr', hres⟩ := run_spec false ch hch ps.flatten pre _ _ [] hg (by simp; omega) st out1 s1 hr
     rw [hr] at h
     rcases hres with ⟨rfl, hg', _⟩ | rfl
     · simp only at h
@@ -105,8 +105,7 @@ def OpenFromExact (ch : Blob → List Blob) (be : Backend) (blob : Blob) (start 
     (res.1 = .ok → EndsComplete ops → res.2.1 = wanted blob start len)
 
 private theorem open_from_core (ch : Blob → List Blob) (hch : ∀ b, (ch b).flatten = b) (be : Backend) (blob : Blob) (start : Nat)
-    (len : Option Nat) (ops : List Op) (hsafe : be = .azure → ∀ op ∈ ops, op ≠ .call .readAll) :
-    OpenFromExact ch be blob start len ops := by
+    (len : Option Nat) (ops : List Op) : OpenFromExact ch be blob start len ops := by
   unfold OpenFromExact openRun
   have hopen := openFrom_spec ch hch be blob start len
   cases ho : openFrom ch be blob start len with
@@ -121,7 +120,7 @@ private theorem open_from_core (ch : Blob → List Blob) (hch : ∀ b, (ch b).fl
     cases hr : run ch blob s ops [] with
     | mk st rest =>
       obtain ⟨out, s'⟩ := rest
-      obtain ⟨d, r', hout, hw, hres⟩ := run_spec true ch hch blob ops s _ [] hg hwl (fun ha => hsafe (haz ha)) st out s' hr
+      obtain ⟨d, r', hout, hw, hres⟩ := run_spec true ch hch blob ops s _ [] hg hwl st out s' hr
       simp only [List.nil_append] at hout
       subst hout
       refine ⟨by rcases hres with ⟨h, _⟩ | h <;> simp [h], ⟨r', hw.symm⟩, ?_⟩
@@ -130,62 +129,41 @@ private theorem open_from_core (ch : Blob → List Blob) (hch : ∀ b, (ch b).fl
       cases hp : run ch blob s pre [] with
       | mk st1 rest1 =>
         obtain ⟨out1, s1⟩ := rest1
-        have hsafe' : s.isAzure = true → ∀ op ∈ pre, op ≠ .call .readAll :=
-          fun ha op hop => hsafe (haz ha) op (List.mem_append_left _ hop)
-        obtain ⟨d1, r1, ho1, hw1, hres1⟩ := run_spec true ch hch blob pre s _ [] hg hwl hsafe' st1 out1 s1 hp
+        obtain ⟨d1, r1, ho1, hw1, hres1⟩ := run_spec true ch hch blob pre s _ [] hg hwl st1 out1 s1 hp
         rw [hp] at hr
         rcases hres1 with ⟨rfl, hg1, haz1⟩ | rfl
         · simp only at hr
           have hl : r1.length ≤ blob.length := by
             have := congrArg List.length hw1; simp at this; omega
-          have hlast' : (last = .call .readAll ∧ true = true ∧ s1.isAzure = false) ∨ ∃ n, 1 ≤ n ∧ last = .drain n := by
+          have hlast' : (last = .call .readAll ∧ true = true) ∨ ∃ n, 1 ≤ n ∧ last = .drain n := by
             rcases hlast with rfl | h
-            · left
-              refine ⟨rfl, rfl, ?_⟩
-              cases hz : s1.isAzure with
-              | false => rfl
-              | true =>
-                have hbe := haz (by rw [← haz1]; exact hz)
-                exact absurd rfl (hsafe hbe (.call .readAll) (by simp))
+            · exact Or.inl ⟨rfl, rfl⟩
             · exact Or.inr h
           have := run_last_complete true ch hch blob s1 r1 out1 last hg1 hl hlast' out s' hr
           rw [this, ho1, hw1]; simp
         · simp at hr
 
-/-- The property holds in full for the local, Google Cloud Storage and S3 backends. -/
-theorem open_from_exact (ch : Blob → List Blob) (hch : ∀ b, (ch b).flatten = b) (be : Backend) (hbe : be ≠ .azure) (blob : Blob)
+/-- **The property holds in full for all four backends** (local, Google Cloud Storage, S3, Azure Blob), every blob, offset,
+length, chunking and read pattern — including `read(-1)` after partial reads on Azure. -/
+theorem open_from_exact (ch : Blob → List Blob) (hch : ∀ b, (ch b).flatten = b) (be : Backend) (blob : Blob)
     (start : Nat) (len : Option Nat) (ops : List Op) : OpenFromExact ch be blob start len ops :=
-  open_from_core ch hch be blob start len ops (fun h => absurd h hbe)
+  open_from_core ch hch be blob start len ops
 
-/-- **Finding** — the full statement is false for Azure.  Witness: blob `[1,2]`, `open_from(url, 0, length=1)`, `readexactly(1)`,
-`read()`: the second call downloads `length` bytes again from the advanced offset and hands out byte `2`, outside the range. -/
-theorem azure_open_from_exact_refuted :
-    ¬ ∀ blob start len ops, OpenFromExact (pieces 0) .azure blob start len ops := by
-  intro h
-  have h2 := (h [1, 2] 0 (some 1) [.call (.exactly 1), .call .readAll]).2.1
-  exact absurd h2 (by decide)
-
-/-- Second symptom of the same branch: `read()` when the position is at the end of the blob lets the SDK's 416 error escape
-(neither bytes nor `UnexpectedEOFError`).  Witness: 1-byte blob, `open_from(url, 0)`, `readexactly(1)`, `read()`. -/
-theorem azure_open_from_http416_escapes :
-    (openRun (pieces 0) .azure [7] 0 none [.call (.exactly 1), .call .readAll]).1 = .http416 := by decide
-
-/-- Azure, partial: the property holds for every pattern that contains no `read(-1)`.
-Missing for the full statement: `AzureReadableStream.read(-1)` ignores the bytes already handed out (`_length` is not reduced,
-the 416 answer is not mapped); see the two theorems above. -/
-theorem azure_open_from_exact_partial (ch : Blob → List Blob) (hch : ∀ b, (ch b).flatten = b) (blob : Blob) (start : Nat)
-    (len : Option Nat) (ops : List Op) (hops : ∀ op ∈ ops, op ≠ .call .readAll) :
-    OpenFromExact ch .azure blob start len ops :=
-  open_from_core ch hch .azure blob start len ops (fun _ => hops)
+/-- in particular no SDK exception escapes from a read pattern any more -/
+theorem no_http_error_escapes (ch : Blob → List Blob) (hch : ∀ b, (ch b).flatten = b) (be : Backend) (blob : Blob)
+    (start : Nat) (len : Option Nat) (ops : List Op) : (openRun ch be blob start len ops).1 ≠ .http416 := by
+  have h := (open_from_exact ch hch be blob start len ops).1
+  rcases h with h | h <;> rw [h] <;> decide
 
 /-! ## `read_from` -/
 
-/-- `read_from(url, start)` returns `blob[start:]`, or raises `UnexpectedEOFError` and then `start` is at/after the end (cloud backends) -/
-theorem read_from_exact (ch : Blob → List Blob) (hch : ∀ b, (ch b).flatten = b) (be : Backend) (hbe : be ≠ .azure) (blob : Blob)
+/-- `read_from(url, start)` returns `blob[start:]`; the only other outcome is `UnexpectedEOFError`, and then `start` is at/after the
+end of the blob (GCS and S3 answer 416 at open time; the local backend and Azure return `b''`) -/
+theorem read_from_exact (ch : Blob → List Blob) (hch : ∀ b, (ch b).flatten = b) (be : Backend) (blob : Blob)
     (start : Nat) :
     ((readFrom ch be blob start).1 = .ok ∧ (readFrom ch be blob start).2.1 = blob.drop start) ∨
       ((readFrom ch be blob start).1 = .eof ∧ blob.length ≤ start) := by
-  have h := open_from_exact ch hch be hbe blob start none [.call .readAll]
+  have h := open_from_exact ch hch be blob start none [.call .readAll]
   unfold OpenFromExact at h
   obtain ⟨hst, _, hall⟩ := h
   unfold readFrom
@@ -194,7 +172,6 @@ theorem read_from_exact (ch : Blob → List Blob) (hch : ∀ b, (ch b).flatten =
     exact ⟨hok, by simpa [wanted] using hall hok ⟨[], _, rfl, Or.inl rfl⟩⟩
   · right
     refine ⟨heof, ?_⟩
-    -- an EOF status can only come from a 416 at open time
     have hopen := openFrom_spec ch hch be blob start none
     unfold openRun at heof
     cases ho : openFrom ch be blob start none with
@@ -202,10 +179,9 @@ theorem read_from_exact (ch : Blob → List Blob) (hch : ∀ b, (ch b).flatten =
     | eofAtOpen req => rw [ho] at hopen; exact hopen
     | stream s req =>
       rw [ho] at hopen heof
-      obtain ⟨hg, haz, _⟩ := hopen
+      obtain ⟨hg, _, _⟩ := hopen
       simp only [run] at heof
       have hs := step_spec true ch hch blob s _ .readAll hg
-        (fun ha => absurd (haz ha) hbe)
       cases hstep : step ch blob s .readAll with
       | ok b s1 => rw [hstep] at heof; simp at heof
       | eof s1 =>
@@ -217,17 +193,12 @@ theorem read_from_exact (ch : Blob → List Blob) (hch : ∀ b, (ch b).flatten =
           simp at this; omega
       | http416 s1 => rw [hstep] at hs; exact absurd hs id
 
-/-- Azure, partial: `read_from` is exact when `start` lies inside the blob. -/
-theorem azure_read_from_partial (ch : Blob → List Blob) (blob : Blob) (start : Nat) (h : start < blob.length) :
+/-- on Azure `read_from` never raises: it returns `blob[start:]`, which is empty at/after the end -/
+theorem azure_read_from (ch : Blob → List Blob) (blob : Blob) (start : Nat) :
     (readFrom ch .azure blob start).1 = .ok ∧ (readFrom ch .azure blob start).2.1 = blob.drop start := by
-  simp [readFrom, openRun, openFrom, run, step, AzSt.readAll, azDownload, h, wanted]
-
-/-- **Finding** — Azure `read_from` at/after the end of the blob: the SDK's 416 error escapes (GCS/S3 raise `UnexpectedEOFError`,
-the local backend returns `b''`).  Witness: the empty blob, `read_from(url, 0)`. -/
-theorem azure_read_from_refuted :
-    ¬ ∀ blob start, ((readFrom (pieces 0) .azure blob start).1 = .ok ∨ (readFrom (pieces 0) .azure blob start).1 = .eof) := by
-  intro h
-  exact absurd (h [] 0) (by decide)
+  by_cases h : start < blob.length
+  · simp [readFrom, openRun, openFrom, run, step, AzSt.readAll, azDownload, h, wanted]
+  · simp [readFrom, openRun, openFrom, run, step, AzSt.readAll, azDownload, h, List.drop_eq_nil_of_le (Nat.le_of_not_lt h)]
 
 /-! ## `read_range` -/
 
@@ -264,7 +235,7 @@ theorem read_range_exact_or_eof (ch : Blob → List Blob) (hch : ∀ b, (ch b).f
     rw [ho] at hopen
     obtain ⟨hg, _, _⟩ := hopen
     simp only [run, wanted] at hg ⊢
-    have hs := step_spec true ch hch blob s _ (.exactly n) hg (by intro _; simp)
+    have hs := step_spec true ch hch blob s _ (.exactly n) hg
     have hle : (slice blob start n).length ≤ n := by simp [slice]; omega
     cases hstep : step ch blob s (.exactly n) with
     | ok b s1 =>
@@ -320,5 +291,21 @@ example : openRun (pieces 1) .azure [1, 2, 3, 4, 5] 1 (some 3) [.drain 2] = (.ok
 example : (readRange (pieces 0) .gs [1, 2, 3, 4, 5] 2 10 true).1 = .eof := by decide
 example : (readRange (pieces 0) .azure [1, 2, 3, 4, 5] 2 4 false) = (.ok, [3, 4], none, [(2, some 2)]) := by decide
 example : (readRange (pieces 0) .localfs [] 0 0 false) = (.ok, [], none, []) := by decide
+
+
+/-! ## The two defects repaired by commit 86ee8e0ea, on the old stream (`azRunOld`) and on the current one -/
+
+-- blob `[1,2]`, `open_from(url, 0, length=1)`, `readexactly(1)`, `read()`: the old stream downloaded `length` bytes again from the
+-- advanced offset and handed out byte 2, outside the requested range
+example : azRunOld (pieces 0) [1, 2] 0 (some 1) [.exactly 1, .readAll] = (.ok, [1, 2]) := by decide
+example : (openRun (pieces 0) .azure [1, 2] 0 (some 1) [.call (.exactly 1), .call .readAll]).2.1 = [1] := by decide
+-- `read()` with the position at the end of the blob: the SDK's 416 error escaped
+example : azRunOld (pieces 0) [7] 0 none [.exactly 1, .readAll] = (.http416, [7]) := by decide
+example : azRunOld (pieces 0) [] 0 none [.readAll] = (.http416, []) := by decide
+example : openRun (pieces 0) .azure [7] 0 none [.call (.exactly 1), .call .readAll] = (.ok, [7], none, [(0, none), (1, none)]) := by decide
+example : (readFrom (pieces 0) .azure [] 0).1 = .ok := by decide
+-- a length that reaches past EOF, partial read, then read(): the second download asks for what is left of the range
+example : openRun (pieces 2) .azure [1, 2, 3] 1 (some 5) [.call (.read 1), .call .readAll] =
+    (.ok, [2, 3], none, [(1, some 5), (2, some 4)]) := by decide
 
 end HailVerif.C23
